@@ -128,3 +128,35 @@ Example C19_ex_repaired_on_witnesses :
 Proof. exact new_on_old_witnesses. Qed.
 Example C19_ex_region : region (hdr ++ [0; 79; 66; 46; 5; 0; 0; 0; 0; 0; 0; 0]) 8 20 1.
 Proof. eapply region_cons; [vm_compute; split; [discriminate|reflexivity]|vm_compute; reflexivity|apply region_nil]. Qed.
+
+(* ==== handler payload footprints from source (unit footprint) ==== *)
+(* Gen/Foot_gen.v is regenerated on every run by translate/units/footprint.py: the handlers model_ovni_event,
+   pre_thread, pre_thread_execute/end/pause/resume/cool/warm, pre_affinity, pre_affinity_set, pre_affinity_remote,
+   pre_cpu (ovni/event.c), mark_event (ovni/mark.c), pre_task, update_task, update_task_state, create_task of
+   nosv/event.c and of nanos6/event.c, rendered statement by statement over Emu/FootPre.v: only the event (value bytes,
+   payload bytes, payload_size, jumbo bit) is represented; a read emu->ev->payload->arr[k] is explicit and guarded by
+   "bytes [k*w, (k+1)*w) lie inside the payload_size bytes of the event", whose failure is the outcome E_OOB; every
+   other object and every untranslated callee is an arbitrary oracle (the translator checks that such a callee can
+   only get the event if it is a function of the same file that never mentions `payload`).
+   PARTIAL: for every payload (any bytes, any size), every value byte and whatever the rest of the emulator does,
+   these handlers never read the payload outside the event.  NOT covered: nosv/nanos6 pre_type (memcpy/memchr over
+   the jumbo label), the handlers of the other models (nodes, tampi, mpi, openmp, kernel: table-driven, they read no
+   payload, but they are not translated), ev_spec.c:print_arg, parson. *)
+From OV Require Emu.EmuCoreDefs Emu.FootPre Gen.Foot_gen Proofs.FootProofs.
+Theorem C19_handlers_read_in_bounds_partial : forall sx e,
+  FootPre.exec (Foot_gen.model_ovni_event e) sx <> EmuCoreDefs.Err FootPre.E_OOB /\
+  FootPre.exec (Foot_gen.mark_event e) sx <> EmuCoreDefs.Err FootPre.E_OOB /\
+  FootPre.exec (Foot_gen.nosv_pre_task e) sx <> EmuCoreDefs.Err FootPre.E_OOB /\
+  FootPre.exec (Foot_gen.nanos6_pre_task e) sx <> EmuCoreDefs.Err FootPre.E_OOB.
+Proof. exact FootProofs.handlers_in_bounds. Qed.
+Print Assumptions C19_handlers_read_in_bounds_partial.
+
+(* the explicit reader does detect an out-of-bounds read: i32[1] of a 4-byte payload; and the generated OHx handler
+   rejects a 3-byte payload by its size guard and accepts 4 and 16 bytes under the all-success oracle *)
+Example C19_ex_footprint :
+  FootPre.cin (FootPre.rd_ok_i32 FootProofs.ok_oracle tt (FootProofs.ev_of 72 120 [1; 0; 0; 0]) 1) = FootPre.COob /\
+  FootPre.exec (Foot_gen.model_ovni_event (FootProofs.ev_of 72 120 [1; 0; 0])) FootProofs.ok_oracle = EmuCoreDefs.Err FootPre.E_SIZE /\
+  FootPre.exec (Foot_gen.model_ovni_event (FootProofs.ev_of 72 120 [1; 0; 0; 0])) FootProofs.ok_oracle = EmuCoreDefs.Ok tt /\
+  FootPre.exec (Foot_gen.model_ovni_event (FootProofs.ev_of 65 114 [1; 0; 0; 0])) FootProofs.ok_oracle = EmuCoreDefs.Err FootPre.E_SIZE.
+Proof. vm_compute. repeat split. Qed.
+(* ==== end of block (unit footprint) ==== *)
